@@ -176,6 +176,129 @@ pub fn call_lib<T>(f: impl FnOnce() -> T) -> Result<T, LibPanic> {
 }
 
 // ------------------------------------------------------------------------------------------------
+// Process aborts (stack overflow, abort()): the tape each worker is executing is registered in a
+// slot; a signal handler dumps the registered tapes into a replay file, prints the VIOLATION line
+// and exits 1.  (An abort cannot be caught as a panic.)
+
+const MAX_SLOTS: usize = 64;
+static SLOT_PTR: [std::sync::atomic::AtomicPtr<u32>; MAX_SLOTS] = [const { std::sync::atomic::AtomicPtr::new(std::ptr::null_mut()) }; MAX_SLOTS];
+static SLOT_LEN: [std::sync::atomic::AtomicUsize; MAX_SLOTS] = [const { std::sync::atomic::AtomicUsize::new(0) }; MAX_SLOTS];
+static mut CRASH_PATH: [u8; 512] = [0; 512];
+static mut CRASH_ID: [u8; 16] = [0; 16];
+
+fn slot_set(slot: usize, tape: &[u32]) {
+    if slot < MAX_SLOTS {
+        SLOT_LEN[slot].store(tape.len(), Ordering::SeqCst);
+        SLOT_PTR[slot].store(tape.as_ptr() as *mut u32, Ordering::SeqCst);
+    }
+}
+
+fn slot_clear(slot: usize) {
+    if slot < MAX_SLOTS {
+        SLOT_PTR[slot].store(std::ptr::null_mut(), Ordering::SeqCst);
+    }
+}
+
+unsafe fn raw_write(fd: i32, bytes: &[u8]) {
+    let mut off = 0;
+    while off < bytes.len() {
+        let n = libc::write(fd, bytes[off..].as_ptr() as *const libc::c_void, bytes.len() - off);
+        if n <= 0 {
+            return;
+        }
+        off += n as usize;
+    }
+}
+
+unsafe fn raw_write_num(fd: i32, mut n: u64) {
+    let mut buf = [0u8; 24];
+    let mut i = buf.len();
+    if n == 0 {
+        i -= 1;
+        buf[i] = b'0';
+    }
+    while n > 0 {
+        i -= 1;
+        buf[i] = b'0' + (n % 10) as u8;
+        n /= 10;
+    }
+    raw_write(fd, &buf[i..]);
+}
+
+extern "C" fn on_crash(sig: libc::c_int) {
+    unsafe {
+        let path = std::ptr::addr_of!(CRASH_PATH) as *const libc::c_char;
+        let fd = libc::open(path, libc::O_WRONLY | libc::O_CREAT | libc::O_TRUNC, 0o644);
+        let id = &*std::ptr::addr_of!(CRASH_ID);
+        let id_len = id.iter().position(|b| *b == 0).unwrap_or(0);
+        if fd >= 0 {
+            raw_write(fd, b"{\"property\": \"");
+            raw_write(fd, &id[..id_len]);
+            raw_write(fd, b"\", \"signature\": \"");
+            raw_write(fd, &id[..id_len]);
+            raw_write(fd, b":process-abort:signal-");
+            raw_write_num(fd, sig as u64);
+            raw_write(fd, b"\", \"message\": \"the process was killed by a signal (stack overflow or abort) while executing one of the candidate tapes\", \"candidates\": [");
+            let mut first = true;
+            for s in 0..MAX_SLOTS {
+                let p = SLOT_PTR[s].load(Ordering::SeqCst);
+                if p.is_null() {
+                    continue;
+                }
+                let len = SLOT_LEN[s].load(Ordering::SeqCst);
+                if !first {
+                    raw_write(fd, b", ");
+                }
+                first = false;
+                raw_write(fd, b"[");
+                for k in 0..len {
+                    if k > 0 {
+                        raw_write(fd, b",");
+                    }
+                    raw_write_num(fd, *p.add(k) as u64);
+                }
+                raw_write(fd, b"]");
+            }
+            raw_write(fd, b"]}\n");
+            libc::close(fd);
+        }
+        raw_write(1, b"VIOLATION property=");
+        raw_write(1, &id[..id_len]);
+        raw_write(1, b" replay=");
+        let cp: &[u8; 512] = &*std::ptr::addr_of!(CRASH_PATH);
+        let plen = cp.iter().position(|b| *b == 0).unwrap_or(0);
+        raw_write(1, &cp[..plen]);
+        raw_write(1, b"\n");
+        libc::_exit(1);
+    }
+}
+
+/// Route fatal signals of this process to a crash replay file for property `id`.
+pub fn install_crash_handler(id: &str) {
+    let dir = out_root().join("evidence").join("replays");
+    let _ = std::fs::create_dir_all(&dir);
+    let path = dir.join(format!("{}-abort-{}.json", id, std::process::id()));
+    let p = path.to_string_lossy().to_string();
+    unsafe {
+        let dst = &mut *std::ptr::addr_of_mut!(CRASH_PATH);
+        let n = p.len().min(dst.len() - 1);
+        dst[..n].copy_from_slice(&p.as_bytes()[..n]);
+        dst[n] = 0;
+        let idd = &mut *std::ptr::addr_of_mut!(CRASH_ID);
+        let m = id.len().min(idd.len() - 1);
+        idd[..m].copy_from_slice(&id.as_bytes()[..m]);
+        idd[m] = 0;
+        let mut sa: libc::sigaction = std::mem::zeroed();
+        sa.sa_sigaction = on_crash as usize;
+        sa.sa_flags = libc::SA_ONSTACK;
+        libc::sigemptyset(&mut sa.sa_mask);
+        for sig in [libc::SIGSEGV, libc::SIGBUS, libc::SIGABRT, libc::SIGILL] {
+            libc::sigaction(sig, &sa, std::ptr::null_mut());
+        }
+    }
+}
+
+// ------------------------------------------------------------------------------------------------
 // stderr handling: the DSL `print` statement writes to stderr; silence it, keep a copy for us.
 
 static mut SAVED_STDERR: i32 = -1;
@@ -499,7 +622,10 @@ where
                         if !shrinking && stop.load(Ordering::Relaxed) {
                             return Ok(());
                         }
-                        let outcome = match std::panic::catch_unwind(std::panic::AssertUnwindSafe(|| case(&tape))) {
+                        slot_set(w, &tape);
+                        let caught = std::panic::catch_unwind(std::panic::AssertUnwindSafe(|| case(&tape)));
+                        slot_clear(w);
+                        let outcome = match caught {
                             Ok(o) => o,
                             Err(_) => {
                                 let message = LAST_PANIC
@@ -825,10 +951,33 @@ where
             return 2;
         }
     };
+    if let Some(cands) = doc["candidates"].as_array() {
+        // a crash file: run every candidate tape in a child process of its own
+        let exe = std::env::current_exe().expect("current exe");
+        for (i, c) in cands.iter().enumerate() {
+            let tmp = out_root().join("evidence").join("replays").join(format!("{}-candidate-{}-{}.json", id, std::process::id(), i));
+            let _ = std::fs::write(&tmp, serde_json::to_string(&json!({"property": id, "tape": c})).unwrap());
+            let status = std::process::Command::new(&exe).args([id, "--replay", &tmp.to_string_lossy()]).env("RUST_BACKTRACE", "0").stdout(std::process::Stdio::null()).status();
+            let _ = std::fs::remove_file(&tmp);
+            // the child's own crash handler exits 1 after writing its crash file
+            let died = match status {
+                Ok(st) => st.code().map(|c| c != 0 && c != 2).unwrap_or(true),
+                Err(_) => false,
+            };
+            if died {
+                println!("replay {}: candidate {} still kills the process or violates the property", path, i);
+                println!("VIOLATION property={} replay={}", id, path);
+                return 1;
+            }
+        }
+        println!("replay {}: no candidate tape kills the process any more", path);
+        return 0;
+    }
     let tape: Vec<u32> = doc["tape"]
         .as_array()
         .map(|a| a.iter().filter_map(|x| x.as_u64()).map(|x| x as u32).collect())
         .unwrap_or_default();
+    slot_set(0, &tape);
     match case(&tape) {
         CaseOutcome::Pass(_) => {
             println!("replay {}: property holds on this input", path);
